@@ -17,8 +17,9 @@ def abstrF (a : Args) (wf : Option WPoint) (fs : List Bytes) : AScript :=
 /-- the abstract script of a run: codes as the client itself delimits and computes them -/
 def abstr (a : Args) (sc : Script) : AScript := abstrF a sc.wfail (frames .d1 [] sc.stream)
 
-/-- the run shows the outcome `e` -/
-def Good (e : Exp) (r : Res) : Prop := verdictOK e.v (obsOf r) = true ∧ (obsOf r).rl = e.rl
+/-- the run shows the outcome `e` (and says QUIT only after a decided verdict) -/
+def Good (e : Exp) (r : Res) : Prop :=
+  verdictOK e.v (obsOf r) = true ∧ (obsOf r).rl = e.rl ∧ (r.quit = true → e.v.decided = true)
 
 theorem hasInfix_self_append (p y : Bytes) : hasInfix p (p ++ y) = true := by
   cases h : p ++ y with
@@ -41,7 +42,7 @@ theorem headB_append (p q : Bytes) (h : p ≠ []) : headB (p ++ q) = headB p := 
 
 theorem good_lost (a : Args) (rs : List Bytes) (w : Bytes) (crit wopen : Bool) :
     Good ⟨rs.map headB, .lost crit⟩ (lost a rs w crit wopen) := by
-  refine ⟨?_, rfl⟩
+  refine ⟨?_, rfl, by simp [lost]⟩
   have hz : headB (droppedRep a.host crit) = cZ := by
     unfold droppedRep; rw [List.append_assoc, List.append_assoc, headB_append _ _ (by decide)]; decide
   simp only [verdictOK, obsOf, lost, hz, beq_self_eq_true, Bool.true_and]
@@ -58,24 +59,21 @@ def letterV : Verdict → Byte
   | .K => cK | .Z => cZ | .D => cD | .lost _ => cZ
 
 theorem good_quit (a : Args) (wf : Option WPoint) (rs : List Bytes) (w pre app txt : Bytes) (v : Verdict)
-    (hne : pre ≠ []) (hv : headB pre = letterV v) (hnl : ∀ c, v ≠ .lost c) :
-    Good (viaQuit wf (rs.map headB) v) (quitWith a wf rs w pre app txt) := by
-  unfold viaQuit quitWith
-  by_cases h : wf = some .quit
-  · simp only [h, if_true]; exact good_lost a rs w false false
-  · simp only [h, if_false]
-    refine ⟨?_, rfl⟩
-    have : headB (pre ++ a.host ++ app ++ lit ".\n" ++ said txt) = letterV v := by
-      simp only [List.append_assoc]; rw [headB_append _ _ hne, hv]
-    cases v with
-    | K => simp only [verdictOK, obsOf, this, letterV]; decide
-    | Z => simp only [verdictOK, obsOf, this, letterV]; decide
-    | D => simp only [verdictOK, obsOf, this, letterV]; decide
-    | lost c => exact absurd rfl (hnl c)
+    (hq : wf ≠ some .quit) (hne : pre ≠ []) (hv : headB pre = letterV v) (hnl : ∀ c, v ≠ .lost c) :
+    Good ⟨rs.map headB, v⟩ (quitWith a wf rs w pre app txt) := by
+  unfold quitWith
+  simp only [hq, if_false]
+  have : headB (pre ++ a.host ++ app ++ lit ".\n" ++ said txt) = letterV v := by
+    simp only [List.append_assoc]; rw [headB_append _ _ hne, hv]
+  cases v with
+  | K => exact ⟨by simp only [verdictOK, obsOf, this, letterV]; decide, rfl, fun _ => rfl⟩
+  | Z => exact ⟨by simp only [verdictOK, obsOf, this, letterV]; decide, rfl, fun _ => rfl⟩
+  | D => exact ⟨by simp only [verdictOK, obsOf, this, letterV]; decide, rfl, fun _ => rfl⟩
+  | lost c => exact absurd rfl (hnl c)
 
 theorem good_msg (rs : List Bytes) (m w : Bytes) (wo : Bool) (v : Verdict) (hv : headB m = letterV v)
     (hnl : ∀ c, v ≠ .lost c) : Good ⟨rs.map headB, v⟩ { rcpt := rs, msg := m, wire := w, wireOpen := wo } := by
-  refine ⟨?_, rfl⟩
+  refine ⟨?_, rfl, by simp⟩
   cases v with
   | K => simp only [verdictOK, obsOf, hv, letterV]; decide
   | Z => simp only [verdictOK, obsOf, hv, letterV]; decide
@@ -83,7 +81,7 @@ theorem good_msg (rs : List Bytes) (m w : Bytes) (wo : Bool) (v : Verdict) (hv :
   | lost c => exact absurd rfl (hnl c)
 
 /-- `smtp()` from DATA on realises `expData` -/
-theorem data_good (a : Args) (wf : Option WPoint) (cs0 : List Nat) (rs : List Bytes) (w : Bytes) (bother : Bool)
+theorem data_good (a : Args) (wf : Option WPoint) (hq : wf ≠ some .quit) (cs0 : List Nat) (rs : List Bytes) (w : Bytes) (bother : Bool)
     (txt : Bytes) (fs : List Bytes) :
     Good (expData { codes := cs0, n := a.rcpts.length, msgErr := a.msgErr, msgPartial := (rblast a.msg).isNone, wfail := wf }
             (rs.map headB) bother (fs.map codeNat))
@@ -91,7 +89,7 @@ theorem data_good (a : Args) (wf : Option WPoint) (cs0 : List Nat) (rs : List By
   unfold expData dataPhase
   by_cases hb : bother = false
   · simp only [hb, if_true]
-    exact good_quit a wf rs w _ _ _ .D (by decide) (by decide) (by intro c; simp)
+    exact good_quit a wf rs w _ _ _ .D hq (by decide) (by decide) (by intro c; simp)
   · simp only [hb, if_false]
     by_cases hw : wf = some .data
     · simp only [hw, if_true]; exact good_lost a rs w false false
@@ -102,11 +100,11 @@ theorem data_good (a : Args) (wf : Option WPoint) (cs0 : List Nat) (rs : List By
         simp only [List.map_cons]
         by_cases h5 : codeNat d ≥ 500
         · simp only [h5, if_true]
-          exact good_quit a wf rs _ _ _ _ .D (by decide) (by decide) (by intro c; simp)
+          exact good_quit a wf rs _ _ _ _ .D hq (by decide) (by decide) (by intro c; simp)
         · simp only [h5, if_false]
           by_cases h4 : codeNat d ≥ 400
           · simp only [h4, if_true]
-            exact good_quit a wf rs _ _ _ _ .Z (by decide) (by decide) (by intro c; simp)
+            exact good_quit a wf rs _ _ _ _ .Z hq (by decide) (by decide) (by intro c; simp)
           · simp only [h4, if_false]
             by_cases hwb : wf = some .body
             · simp only [hwb, if_true]; exact good_lost a rs _ false true
@@ -130,16 +128,16 @@ theorem data_good (a : Args) (wf : Option WPoint) (cs0 : List Nat) (rs : List By
                       simp only [List.map_cons]
                       by_cases g5 : codeNat f ≥ 500
                       · simp only [g5, if_true]
-                        exact good_quit a wf rs _ _ _ _ .D (by decide) (by decide) (by intro c; simp)
+                        exact good_quit a wf rs _ _ _ _ .D hq (by decide) (by decide) (by intro c; simp)
                       · simp only [g5, if_false]
                         by_cases g4 : codeNat f ≥ 400
                         · simp only [g4, if_true]
-                          exact good_quit a wf rs _ _ _ _ .Z (by decide) (by decide) (by intro c; simp)
+                          exact good_quit a wf rs _ _ _ _ .Z hq (by decide) (by decide) (by intro c; simp)
                         · simp only [g4, if_false]
-                          exact good_quit a wf rs _ _ _ _ .K (by decide) (by decide) (by intro c; simp)
+                          exact good_quit a wf rs _ _ _ _ .K hq (by decide) (by decide) (by intro c; simp)
 
 /-- the RCPT loop realises `expRcpt` -/
-theorem rcpt_good (a : Args) (wf : Option WPoint) (cs0 : List Nat) (n0 : Nat) (more : List Bytes) :
+theorem rcpt_good (a : Args) (wf : Option WPoint) (hq : wf ≠ some .quit) (cs0 : List Nat) (n0 : Nat) (more : List Bytes) :
     ∀ (i : Nat) (rs : List Bytes) (w : Bytes) (bother : Bool) (txt : Bytes) (fs : List Bytes),
     Good (expRcpt { codes := cs0, n := n0, msgErr := a.msgErr, msgPartial := (rblast a.msg).isNone, wfail := wf }
             i more.length (rs.map headB) bother (fs.map codeNat))
@@ -148,7 +146,7 @@ theorem rcpt_good (a : Args) (wf : Option WPoint) (cs0 : List Nat) (n0 : Nat) (m
   | nil =>
     intro i rs w bother txt fs
     simp only [List.length_nil, expRcpt, rcptLoop]
-    have := data_good a wf cs0 rs w bother txt fs
+    have := data_good a wf hq cs0 rs w bother txt fs
     unfold expData at this ⊢
     exact this
   | cons r more ih =>
@@ -175,7 +173,7 @@ theorem rcpt_good (a : Args) (wf : Option WPoint) (cs0 : List Nat) (n0 : Nat) (m
             simpa [headB] using this
 
 /-- **the model of `smtp()` realises the class rules** -/
-theorem run_good (a : Args) (wf : Option WPoint) (fs : List Bytes) :
+theorem run_good (a : Args) (wf : Option WPoint) (hq : wf ≠ some .quit) (fs : List Bytes) :
     Good (expect (abstrF a wf fs)) (run a wf fs) := by
   unfold expect run abstrF
   cases fs with
@@ -184,7 +182,7 @@ theorem run_good (a : Args) (wf : Option WPoint) (fs : List Bytes) :
     simp only [List.map_cons]
     by_cases hg : codeNat g ≠ 220
     · simp only [hg, if_true, ne_eq, not_false_eq_true]
-      exact good_quit a wf [] _ _ _ _ .Z (by decide) (by decide) (by intro c; simp)
+      exact good_quit a wf [] _ _ _ _ .Z hq (by decide) (by decide) (by intro c; simp)
     · simp only [hg, if_false, ne_eq]
       by_cases hw : wf = some .helo
       · simp only [hw, if_true]; exact good_lost a [] _ false false
@@ -195,7 +193,7 @@ theorem run_good (a : Args) (wf : Option WPoint) (fs : List Bytes) :
           simp only [List.map_cons]
           by_cases hh : codeNat h ≠ 250
           · simp only [hh, if_true, ne_eq, not_false_eq_true]
-            exact good_quit a wf [] _ _ _ _ .Z (by decide) (by decide) (by intro c; simp)
+            exact good_quit a wf [] _ _ _ _ .Z hq (by decide) (by decide) (by intro c; simp)
           · simp only [hh, if_false, ne_eq]
             by_cases hwm : wf = some .mail
             · simp only [hwm, if_true]; exact good_lost a [] _ false false
@@ -206,38 +204,28 @@ theorem run_good (a : Args) (wf : Option WPoint) (fs : List Bytes) :
                 simp only [List.map_cons]
                 by_cases h5 : codeNat m ≥ 500
                 · simp only [h5, if_true]
-                  exact good_quit a wf [] _ _ _ _ .D (by decide) (by decide) (by intro c; simp)
+                  exact good_quit a wf [] _ _ _ _ .D hq (by decide) (by decide) (by intro c; simp)
                 · simp only [h5, if_false]
                   by_cases h4 : codeNat m ≥ 400
                   · simp only [h4, if_true]
-                    exact good_quit a wf [] _ _ _ _ .Z (by decide) (by decide) (by intro c; simp)
+                    exact good_quit a wf [] _ _ _ _ .Z hq (by decide) (by decide) (by intro c; simp)
                   · simp only [h4, if_false]
-                    exact rcpt_good a wf _ _ a.rcpts 0 [] _ false _ fs
+                    exact rcpt_good a wf hq _ _ a.rcpts 0 [] _ false _ fs
 
 /-! ### consequences of the class rules (pure reasoning about `expect`) -/
-
-theorem viaQuit_rl (wf : Option WPoint) (rl : List Byte) (v : Verdict) : (viaQuit wf rl v).rl = rl := by
-  unfold viaQuit; split <;> rfl
-
-theorem viaQuit_K (wf : Option WPoint) (rl : List Byte) (v : Verdict) (h : (viaQuit wf rl v).v = .K) :
-    v = .K ∧ wf ≠ some .quit := by
-  unfold viaQuit at h
-  split at h
-  · simp at h
-  · exact ⟨h, by assumption⟩
 
 theorem expData_rl (s : AScript) (rl : List Byte) (b : Bool) (cs : List Nat) : (expData s rl b cs).rl = rl := by
   unfold expData
   repeat' split
-  all_goals first | rfl | exact viaQuit_rl _ _ _
+  all_goals rfl
 
 /-- what a `K` outcome of the DATA phase implies -/
 theorem expData_K (s : AScript) (rl : List Byte) (b : Bool) (cs : List Nat) (h : (expData s rl b cs).v = .K) :
     b = true ∧ lt400 cs[0]? = true ∧ lt400 cs[1]? = true ∧ s.wfail ≠ some .data ∧ s.wfail ≠ some .body ∧
-    s.wfail ≠ some .final ∧ s.wfail ≠ some .quit ∧ s.msgErr = false ∧ s.msgPartial = false := by
+    s.wfail ≠ some .final ∧ s.msgErr = false ∧ s.msgPartial = false := by
   unfold expData at h
   by_cases hb : b = false
-  · simp only [hb, if_true] at h; exact absurd (viaQuit_K _ _ _ h).1 (by simp)
+  · simp [hb] at h
   · simp only [hb, if_false] at h
     by_cases hw : s.wfail = some .data
     · simp [hw] at h
@@ -247,10 +235,10 @@ theorem expData_K (s : AScript) (rl : List Byte) (b : Bool) (cs : List Nat) (h :
       | cons d cs =>
         simp only at h
         by_cases h5 : d ≥ 500
-        · simp only [h5, if_true] at h; exact absurd (viaQuit_K _ _ _ h).1 (by simp)
+        · simp [h5] at h
         · simp only [h5, if_false] at h
           by_cases h4 : d ≥ 400
-          · simp only [h4, if_true] at h; exact absurd (viaQuit_K _ _ _ h).1 (by simp)
+          · simp [h4] at h
           · simp only [h4, if_false] at h
             by_cases hwb : s.wfail = some .body
             · simp [hwb] at h
@@ -269,13 +257,11 @@ theorem expData_K (s : AScript) (rl : List Byte) (b : Bool) (cs : List Nat) (h :
                     | cons f cs =>
                       simp only at h
                       by_cases g5 : f ≥ 500
-                      · simp only [g5, if_true] at h; exact absurd (viaQuit_K _ _ _ h).1 (by simp)
+                      · simp [g5] at h
                       · simp only [g5, if_false] at h
                         by_cases g4 : f ≥ 400
-                        · simp only [g4, if_true] at h; exact absurd (viaQuit_K _ _ _ h).1 (by simp)
-                        · simp only [g4, if_false] at h
-                          have hq := (viaQuit_K _ _ _ h).2
-                          refine ⟨by simpa using hb, ?_, ?_, hw, hwb, hwf, hq, by simpa using hme, by simpa using hmp⟩
+                        · simp [g4] at h
+                        · refine ⟨by simpa using hb, ?_, ?_, hw, hwb, hwf, by simpa using hme, by simpa using hmp⟩
                           · simp [lt400]; omega
                           · simp [lt400]; omega
 
@@ -327,7 +313,7 @@ theorem expRcpt_K (s : AScript) : ∀ (k i : Nat) (rl : List Byte) (b : Bool) (c
     k ≤ cs.length ∧ (expRcpt s i k rl b cs).rl = rl ++ (cs.take k).map clsLetter ∧
     (b = true ∨ ∃ c ∈ cs.take k, c < 400) ∧ lt400 cs[k]? = true ∧ lt400 cs[k + 1]? = true ∧
     (∀ j, i ≤ j → j < i + k → s.wfail ≠ some (.rcpt j)) ∧
-    s.wfail ≠ some .data ∧ s.wfail ≠ some .body ∧ s.wfail ≠ some .final ∧ s.wfail ≠ some .quit ∧
+    s.wfail ≠ some .data ∧ s.wfail ≠ some .body ∧ s.wfail ≠ some .final ∧
     s.msgErr = false ∧ s.msgPartial = false := by
   intro k
   induction k with
@@ -385,7 +371,7 @@ theorem expect_K (s : AScript) (h : (expect s).v = .K) :
   | cons g cs =>
     simp only [hc] at h ⊢
     by_cases hg : g ≠ 220
-    · simp only [hg, if_true, ne_eq, not_false_eq_true] at h; exact absurd (viaQuit_K _ _ _ h).1 (by simp)
+    · simp [hg] at h
     · simp only [hg, if_false, ne_eq] at h ⊢
       by_cases hw : s.wfail = some .helo
       · simp [hw] at h
@@ -395,7 +381,7 @@ theorem expect_K (s : AScript) (h : (expect s).v = .K) :
         | cons hh cs =>
           simp only at h ⊢
           by_cases hh2 : hh ≠ 250
-          · simp only [hh2, if_true, ne_eq, not_false_eq_true] at h; exact absurd (viaQuit_K _ _ _ h).1 (by simp)
+          · simp [hh2] at h
           · simp only [hh2, if_false, ne_eq] at h ⊢
             by_cases hwm : s.wfail = some .mail
             · simp [hwm] at h
@@ -405,12 +391,12 @@ theorem expect_K (s : AScript) (h : (expect s).v = .K) :
               | cons m cs =>
                 simp only at h ⊢
                 by_cases h5 : m ≥ 500
-                · simp only [h5, if_true] at h; exact absurd (viaQuit_K _ _ _ h).1 (by simp)
+                · simp [h5] at h
                 · simp only [h5, if_false] at h ⊢
                   by_cases h4 : m ≥ 400
-                  · simp only [h4, if_true] at h; exact absurd (viaQuit_K _ _ _ h).1 (by simp)
+                  · simp [h4] at h
                   · simp only [h4, if_false] at h ⊢
-                    obtain ⟨a1, a2, a3, a4, a5, a6, a7, a8, a9, a10, a11, a12⟩ := expRcpt_K s s.n 0 [] false cs h
+                    obtain ⟨a1, a2, a3, a4, a5, a6, a7, a8, a9, a11, a12⟩ := expRcpt_K s s.n 0 [] false cs h
                     have hex : ∃ c ∈ cs.take s.n, c < 400 := by
                       rcases a3 with a3 | a3
                       · simp at a3
@@ -431,7 +417,7 @@ theorem expect_K (s : AScript) (h : (expect s).v = .K) :
                         | data => exact absurd hwf a7
                         | body => exact absurd hwf a8
                         | final => exact absurd hwf a9
-                        | quit => exact absurd hwf a10
+                        | quit => rfl
                     refine ⟨by simpa using hg, by simpa using hh2, by simp [lt400]; omega, by simp; omega, ?_, ?_, ?_, ?_, hwu, a11, a12⟩
                     · rw [a2]; simp
                     · simpa using hex
@@ -456,7 +442,7 @@ theorem expect_rl (s : AScript) :
   | cons g cs =>
     simp only
     by_cases hg : g ≠ 220
-    · simp only [hg, if_true, ne_eq, not_false_eq_true]; exact z _ _ (viaQuit_rl _ _ _)
+    · simp only [hg, if_true, ne_eq, not_false_eq_true]; exact z _ _ rfl
     · simp only [hg, if_false, ne_eq]
       by_cases hw : s.wfail = some .helo
       · simp only [hw, if_true]; exact z _ _ rfl
@@ -466,7 +452,7 @@ theorem expect_rl (s : AScript) :
         | cons hh cs =>
           simp only
           by_cases hh2 : hh ≠ 250
-          · simp only [hh2, if_true, ne_eq, not_false_eq_true]; exact z _ _ (viaQuit_rl _ _ _)
+          · simp only [hh2, if_true, ne_eq, not_false_eq_true]; exact z _ _ rfl
           · simp only [hh2, if_false, ne_eq]
             by_cases hwm : s.wfail = some .mail
             · simp only [hwm, if_true]; exact z _ _ rfl
@@ -476,10 +462,10 @@ theorem expect_rl (s : AScript) :
               | cons m cs =>
                 simp only
                 by_cases h5 : m ≥ 500
-                · simp only [h5, if_true]; exact z _ _ (viaQuit_rl _ _ _)
+                · simp only [h5, if_true]; exact z _ _ rfl
                 · simp only [h5, if_false]
                   by_cases h4 : m ≥ 400
-                  · simp only [h4, if_true]; exact z _ _ (viaQuit_rl _ _ _)
+                  · simp only [h4, if_true]; exact z _ _ rfl
                   · simp only [h4, if_false]
                     obtain ⟨k, k1, k2, k3⟩ := expRcpt_rl s s.n 0 [] false cs
                     refine ⟨k, k1, Or.inl (by simp; omega), by rw [k3]; simp, Or.inr ⟨by simpa using hg, by simpa using hh2, by simp [lt400]; omega⟩⟩
@@ -504,14 +490,14 @@ theorem kSound_of_good (s : AScript) (o : Obs) (h : GoodO s o) : kSound s o = tr
     simp [a1, a2, a3, a7, a8, a9, a10, a11, hlen, hmem]
   · simp [hk]
 
-theorem rcptOrder_of_good (s : AScript) (o : Obs) (h : GoodO s o) : rcptOrder s o = true := by
+theorem rcptOrder_of_good (s : AScript) (o : Obs) (h : o.rl = (expect s).rl) : rcptOrder s o = true := by
   obtain ⟨m, m1, m2, m3, m4⟩ := expect_rl s
   have hlen : o.rl.length = m := by
-    rw [h.2, m3]; simp
+    rw [h, m3]; simp
     rcases m2 with m2 | m2 <;> omega
   unfold rcptOrder
   rw [hlen]
-  have e1 : o.rl = ((s.codes.drop 3).take m).map clsLetter := by rw [h.2, m3]
+  have e1 : o.rl = ((s.codes.drop 3).take m).map clsLetter := by rw [h, m3]
   have e3 : o.rl.isEmpty = true ∨ (s.codes[0]? = some 220 ∧ s.codes[1]? = some 250 ∧ lt400 s.codes[2]? = true) := by
     rcases m4 with m4 | m4
     · left; rw [e1, m4]; simp
@@ -523,6 +509,142 @@ theorem rcptOrder_of_good (s : AScript) (o : Obs) (h : GoodO s o) : rcptOrder s 
   rcases e3 with e3 | ⟨b1, b2, b3⟩
   · simp [m1, ← e1, e2, e3]
   · simp [m1, ← e1, e2, b1, b2, b3]
+
+/-! ### the QUIT corner: the run whose QUIT write fails vs. the same run with that write succeeding -/
+
+theorem headB_dropped (h : Bytes) (c : Bool) : headB (droppedRep h c) = cZ := by
+  unfold droppedRep; simp only [List.append_assoc]; rw [headB_append _ _ (by decide)]; decide
+
+/-- `r` = the run in which the QUIT write fails, `r0` = the same run with it succeeding: the same
+recipient reports; if `r0` says QUIT, `r` prints the unflagged "connection died" instead of the verdict
+and the server does not get the QUIT; otherwise nothing differs -/
+def QuitRel (a : Args) (r0 r : Res) : Prop :=
+  r.rcpt = r0.rcpt ∧
+  (if r0.quit = true then
+     r.msg = droppedRep a.host false ∧ r0.wire = r.wire ++ quitCmd ∧ r.quit = false ∧ r.wireOpen = false ∧ r0.wireOpen = false
+   else r = r0)
+
+theorem quitRel_quit (a : Args) (rs : List Bytes) (w pre app txt : Bytes) :
+    QuitRel a (quitWith a none rs w pre app txt) (quitWith a (some .quit) rs w pre app txt) := by
+  simp [QuitRel, quitWith, quitCmd]
+
+theorem quitRel_lost (a : Args) (rs : List Bytes) (w : Bytes) (c wo : Bool) : QuitRel a (lost a rs w c wo) (lost a rs w c wo) := by
+  simp [QuitRel, lost]
+
+theorem data_quit (a : Args) (rs : List Bytes) (w : Bytes) (bother : Bool) (txt : Bytes) (fs : List Bytes) :
+    QuitRel a (dataPhase a none rs w bother txt fs) (dataPhase a (some .quit) rs w bother txt fs) := by
+  unfold dataPhase
+  simp only [Option.some.injEq, reduceCtorEq, if_false]
+  repeat' split
+  all_goals first | exact quitRel_quit _ _ _ _ _ _ | exact quitRel_lost _ _ _ _ _ | simp_all [QuitRel]
+
+theorem rcpt_quit (a : Args) (more : List Bytes) : ∀ (i : Nat) (rs : List Bytes) (w : Bytes) (bother : Bool) (txt : Bytes) (fs : List Bytes),
+    QuitRel a (rcptLoop a none i more rs w bother txt fs) (rcptLoop a (some .quit) i more rs w bother txt fs) := by
+  induction more with
+  | nil => intro i rs w bother txt fs; simp only [rcptLoop]; exact data_quit a rs w bother txt fs
+  | cons r more ih =>
+    intro i rs w bother txt fs
+    simp only [rcptLoop, Option.some.injEq, reduceCtorEq, if_false]
+    cases fs with
+    | nil => exact quitRel_lost _ _ _ _ _
+    | cons p fs =>
+      simp only
+      split
+      · exact ih _ _ _ _ _ _
+      · split
+        · exact ih _ _ _ _ _ _
+        · exact ih _ _ _ _ _ _
+
+theorem run_quit (a : Args) (fs : List Bytes) : QuitRel a (run a none fs) (run a (some .quit) fs) := by
+  unfold run
+  simp only [Option.some.injEq, reduceCtorEq, if_false]
+  repeat' split
+  all_goals first | exact quitRel_quit _ _ _ _ _ _ | exact quitRel_lost _ _ _ _ _ | exact rcpt_quit _ _ _ _ _ _ _ _ | simp_all [QuitRel]
+
+theorem expData_quit (s : AScript) (rl : List Byte) (b : Bool) (cs : List Nat) :
+    expData { s with wfail := some .quit } rl b cs = expData { s with wfail := none } rl b cs := by
+  simp [expData]
+
+theorem expRcpt_quit (s : AScript) : ∀ (k i : Nat) (rl : List Byte) (b : Bool) (cs : List Nat),
+    expRcpt { s with wfail := some .quit } i k rl b cs = expRcpt { s with wfail := none } i k rl b cs := by
+  intro k
+  induction k with
+  | zero => intro i rl b cs; simp only [expRcpt]; exact expData_quit s rl b cs
+  | succ k ih =>
+    intro i rl b cs
+    simp only [expRcpt, Option.some.injEq, reduceCtorEq, if_false]
+    cases cs with
+    | nil => rfl
+    | cons p cs => simp only [ih]
+
+/-- the rules ignore a failing QUIT write -/
+theorem expect_quit (s : AScript) : expect { s with wfail := some .quit } = expect { s with wfail := none } := by
+  unfold expect
+  simp only [Option.some.injEq, reduceCtorEq, if_false, expRcpt_quit]
+
+/-- **every script**: the recipient letters are those of the rules; the message report has the class of
+the rules — except when the QUIT write fails after a decided verdict: then the code prints the
+unflagged "connection died" -/
+theorem run_all (a : Args) (wf : Option WPoint) (fs : List Bytes) :
+    (obsOf (run a wf fs)).rl = (expect (abstrF a wf fs)).rl ∧
+    (verdictOK (expect (abstrF a wf fs)).v (obsOf (run a wf fs)) = true ∨
+     (wf = some .quit ∧ (expect (abstrF a wf fs)).v.decided = true ∧ (run a wf fs).msg = droppedRep a.host false)) := by
+  by_cases hq : wf = some .quit
+  · subst hq
+    have g0 := run_good a none (by simp) fs
+    obtain ⟨h1, h2⟩ := run_quit a fs
+    have he : expect (abstrF a (some .quit) fs) = expect (abstrF a none fs) := expect_quit (abstrF a none fs)
+    rw [he]
+    by_cases hqq : (run a none fs).quit = true
+    · simp only [hqq, if_true] at h2
+      refine ⟨?_, Or.inr ⟨rfl, g0.2.2 hqq, h2.1⟩⟩
+      rw [← g0.2.1]; simp [obsOf, h1]
+    · simp only [hqq] at h2
+      simp only [Bool.false_eq_true, if_false] at h2
+      rw [h2]; exact ⟨g0.2.1, Or.inl g0.1⟩
+  · have g := run_good a wf hq fs
+    exact ⟨g.2.1, Or.inl g.1⟩
+
+theorem kSound_run (a : Args) (wf : Option WPoint) (fs : List Bytes) :
+    kSound (abstrF a wf fs) (obsOf (run a wf fs)) = true := by
+  obtain ⟨h1, h2 | ⟨_, _, h3⟩⟩ := run_all a wf fs
+  · exact kSound_of_good _ _ ⟨h2, h1⟩
+  · have : (obsOf (run a wf fs)).ml = cZ := by simp [obsOf, h3, headB_dropped]
+    have hne : (cZ != cK) = true := by decide
+    unfold kSound; rw [this, hne]; rfl
+
+/-! ### the RCPT phase of the rules on a script of the expected shape -/
+
+theorem expRcpt_append (s : AScript) (hw : ∀ j, s.wfail ≠ some (.rcpt j)) :
+    ∀ (rc : List Nat) (i : Nat) (rl : List Byte) (b : Bool) (rest : List Nat),
+    expRcpt s i rc.length rl b (rc ++ rest) =
+      expData s (rl ++ rc.map clsLetter) (b || rc.any (fun c => decide (c < 400))) rest := by
+  intro rc
+  induction rc with
+  | nil => intro i rl b rest; simp [expRcpt]
+  | cons p rc ih =>
+    intro i rl b rest
+    simp only [List.length_cons, expRcpt, hw, if_false, List.cons_append]
+    by_cases h5 : p ≥ 500
+    · have : ¬ p < 400 := by omega
+      simp [h5, ih, clsLetter, this]
+    · by_cases h4 : p ≥ 400
+      · have : ¬ p < 400 := by omega
+        simp [h5, h4, ih, clsLetter, this]
+      · have : p < 400 := by omega
+        simp [h5, h4, ih, clsLetter, this]
+
+/-- greeting 220, HELO 250, MAIL below 400, one reply per recipient, no failing write so far: the rules
+reach the DATA phase with the recipients classified by their own replies -/
+theorem expect_rcpts (s : AScript) (m : Nat) (rc rest : List Nat) (hc : s.codes = 220 :: 250 :: m :: (rc ++ rest))
+    (hm : m < 400) (hn : rc.length = s.n) (h1 : s.wfail ≠ some .helo) (h2 : s.wfail ≠ some .mail)
+    (h3 : ∀ j, s.wfail ≠ some (.rcpt j)) :
+    expect s = expData s (rc.map clsLetter) (rc.any (fun c => decide (c < 400))) rest := by
+  unfold expect
+  have m5 : ¬ m ≥ 500 := by omega
+  have m4 : ¬ m ≥ 400 := by omega
+  simp only [hc, ne_eq, not_true_eq_false, if_false, h1, h2, m5, m4, ← hn]
+  rw [expRcpt_append s h3]; simp
 
 /-! ### `smtpcode()`: the code and the framing -/
 
